@@ -264,3 +264,42 @@ Lemma VP_sub b a vb : pfin a -> VP b = Some vb -> VP (b - a)%float = Some (vminu
 Proof. unfold VP, pfin, pR. rewrite sub_equiv. apply Vminus. Qed.
 Lemma VP_mul x d vd : pfin x -> 0 < pR x -> VP d = Some vd -> VP (x * d)%float = Some (vmult (pR x) vd).
 Proof. unfold VP, pfin, pR. rewrite mul_equiv. apply Vmult. Qed.
+
+(* ---------------------------------------------------------------- division by a non-zero finite float *)
+Lemma Vdiv_fin (x y : B) : is_finite x = true -> is_finite y = true -> B2R y <> 0 ->
+  V (Bdiv mode_NE x y) = Some (clamp (rnd (B2R x / B2R y))).
+Proof.
+  intros Fx Fy Ny. generalize (Bdiv_correct prec emax Hprec Hmax mode_NE x y Ny).
+  unfold clamp. case Rlt_bool_spec; intros Hov.
+  - intros [E [F _]]. rewrite Fx in F. rewrite V_fin by exact F. now rewrite E.
+  - intros E. unfold binary_overflow in E. simpl overflow_to_inf in E. cbv iota in E.
+    apply SF_inf_eq in E. rewrite E. pose proof M_pos.
+    unfold Rdiv in *. set (iy := / B2R y) in *.
+    assert (Hiy : (Bsign y = true -> iy < 0) /\ (Bsign y = false -> 0 < iy)).
+    { split; intros Sy.
+      - pose proof (Bsign_true_le0 y Fy Sy). apply Rinv_lt_0_compat. lra.
+      - pose proof (Bsign_false_ge0 y Fy Sy). apply Rinv_0_lt_compat. lra. }
+    destruct Hiy as [Hn Hp].
+    destruct (Bsign x) eqn:Sx, (Bsign y) eqn:Sy; simpl xorb.
+    + assert (0 <= rnd (B2R x * iy)).
+      { rewrite <- rnd_0. apply rnd_le. pose proof (Bsign_true_le0 x Fx Sx). specialize (Hn eq_refl). nra. }
+      rewrite Rlt_bool_true; [reflexivity|]. rewrite Rabs_pos_eq in Hov by assumption. lra.
+    + assert (rnd (B2R x * iy) <= 0).
+      { rewrite <- rnd_0. apply rnd_le. pose proof (Bsign_true_le0 x Fx Sx). specialize (Hp eq_refl). nra. }
+      rewrite Rlt_bool_false by lra. reflexivity.
+    + assert (rnd (B2R x * iy) <= 0).
+      { rewrite <- rnd_0. apply rnd_le. pose proof (Bsign_false_ge0 x Fx Sx). specialize (Hn eq_refl). nra. }
+      rewrite Rlt_bool_false by lra. reflexivity.
+    + assert (0 <= rnd (B2R x * iy)).
+      { rewrite <- rnd_0. apply rnd_le. pose proof (Bsign_false_ge0 x Fx Sx). specialize (Hp eq_refl). nra. }
+      rewrite Rlt_bool_true; [reflexivity|]. rewrite Rabs_pos_eq in Hov by assumption. lra.
+Qed.
+
+Lemma VP_mul_fin x d : pfin x -> pfin d -> VP (x * d)%float = Some (clamp (rnd (pR x * pR d))).
+Proof. unfold VP, pfin, pR. rewrite mul_equiv. apply Vmult_fin. Qed.
+Lemma VP_div_fin x y : pfin x -> pfin y -> pR y <> 0 -> VP (x / y)%float = Some (clamp (rnd (pR x / pR y))).
+Proof. unfold VP, pfin, pR. rewrite div_equiv. apply Vdiv_fin. Qed.
+
+(* a float whose value is a finite real is finite *)
+Lemma VP_Fin_pfin x r : VP x = Some (Fin r) -> pfin x /\ pR x = r.
+Proof. unfold VP, pfin, pR. intros H. destruct (V_Fin_inv _ _ H) as [E F]. auto. Qed.
